@@ -155,7 +155,7 @@ def main():
     exe = common.build_ocaml(PID)
     quick = c.tier == "quick"
     rng = c.rng
-    nprog, nseeds, variants = (18, 2, VARIANTS) if quick else (120, 3, VARIANTS + [(v, str(1000 + v), "sequential") for v in range(6, 24)])
+    nprog, nseeds, variants = (12, 2, VARIANTS) if quick else (120, 3, VARIANTS + [(v, str(1000 + v), "sequential") for v in range(6, 24)])
     progs = [gen_program(rng, i) for i in range(nprog)]
     jobs = []
     for p in progs:
